@@ -287,6 +287,31 @@ func depCanon(r *engine.Run) {
 	if n < 2 {
 		r.Anchor(rule, fmt.Errorf("unresolved anchor: branch arms that clear a slot (found %d)", n))
 	}
+	// a branch that keeps a value but loses its last child becomes a leaf: in the
+	// branch arm of deleteAtNode a leaf is inserted where HasValue() tested true
+	if f := r.Fn(rule, pkgUtil, "MerklePatriciaTrie", "deleteAtNode"); f != nil {
+		if arm := typeArms(f, paramRole(f, "node"))["FullNode"]; arm != nil {
+			toLeaf := false
+			engine.Instrs(f, func(in ssa.Instruction) {
+				c, ok := in.(*ssa.Call)
+				if !ok || !arm.blocks[c.Block()] || !staticCalleeIs(c, pkgUtil, "MerklePatriciaTrie", "insertLeaf") {
+					return
+				}
+				engine.Instrs(f, func(i2 ssa.Instruction) {
+					hv, ok := i2.(*ssa.Call)
+					if !ok {
+						return
+					}
+					if recv, is := engine.IsMethodCall(hv, "HasValue"); is && isNamed(recv.Type(), pkgUtil, "FullNode") && truthAt(f, c.Block(), hv, true) {
+						toLeaf = true
+					}
+				})
+			})
+			r.Check(toLeaf, rule, fn(f)+"|valued branch without children becomes a leaf", r.P.Pos(f.Pos()),
+				"the branch arm inserts a leaf where the branch's HasValue() tested true",
+				"a branch that still holds a value but lost its last child is no longer turned into a leaf: the same content is a childless branch in one history and a leaf in another, so the root depends on history")
+		}
+	}
 }
 
 var _ = types.Typ
